@@ -193,6 +193,14 @@ func (nc *netConn) read(p []byte) (int, error) {
 		nc.reader = nil
 		err = nil
 	}
+	if err != nil {
+		// A close frame can also arrive between the fragments of a message.
+		switch CloseStatus(err) {
+		case StatusNormalClosure, StatusGoingAway:
+			nc.readEOFed = true
+			return n, io.EOF
+		}
+	}
 	return n, err
 }
 
